@@ -1,7 +1,9 @@
 import MitmVerif.Model.C35
+import MitmVerif.Model.C35_Str
 import Driver.Proto
 open MitmVerif Driver
 open MitmVerif.C35
+open MitmVerif.C35.Api (AOp ARet K1 KV)
 
 /-
   One case per line:
@@ -30,77 +32,123 @@ def takeFields (n : Nat) (ts : List String) : Option (Fields × List String) :=
 
 def flag? (s : String) : Option Bool := if s = "1" then some true else if s = "0" then some false else none
 
-/-- parse one operation from the front of the token list -/
-def parseOp : List String → Option (Op × List String)
+def hexNat? (s : String) : Option Nat :=
+  if s.isEmpty then none
+  else s.toList.foldl (fun acc c => match acc, Hex.value? c with
+    | some a, some d => some (a * 16 + d)
+    | _, _ => none) (some 0)
+
+/-- `u61.e9.dc80` / `u-` -/
+def cps? (s : String) : Option PyStr :=
+  if s = "-" then some []
+  else (s.splitOn ".").foldr (fun w acc => match hexNat? w, acc with
+    | some n, some l => some (n :: l)
+    | _, _ => none) (some [])
+
+/-- a `str | bytes` argument: `b<hex>` or `u<code points>` -/
+def arg? (s : String) : Option Arg :=
+  match s.toList with
+  | 'b' :: r => (hexOr (String.ofList r)).map Arg.b
+  | 'u' :: r => (cps? (String.ofList r)).map Arg.s
+  | _ => none
+
+def takeArgs : Nat → List String → Option (List Arg × List String)
+  | 0, ts => some ([], ts)
+  | _ + 1, [] => none
+  | n + 1, t :: ts =>
+    match arg? t, takeArgs n ts with
+    | some b, some (bs, rest) => some (b :: bs, rest)
+    | _, _ => none
+
+def pairArgs : List Arg → List (Arg × Arg)
+  | a :: b :: rest => (a, b) :: pairArgs rest
+  | _ => []
+
+/-- parse one call from the front of the token list -/
+def parseOp : List String → Option (AOp × List String)
   | o :: t :: rest =>
     match t.toNat? with
     | none => none
     | some t =>
-      let k1 (mk : Bytes → Op) : Option (Op × List String) :=
+      let k1 (kind : K1) : Option (AOp × List String) :=
         match rest with
-        | k :: r => (hexOr k).map (fun k => (mk k, r))
+        | k :: r => (arg? k).map (fun k => (AOp.k1 kind t k, r))
         | _ => none
-      let k2 (mk : Bytes → Bytes → Op) : Option (Op × List String) :=
+      let k2 (kind : KV) : Option (AOp × List String) :=
         match rest with
-        | k :: v :: r => match hexOr k, hexOr v with
-          | some k, some v => some (mk k v, r)
+        | k :: v :: r => match arg? k, arg? v with
+          | some k, some v => some (AOp.kv kind t k v, r)
           | _, _ => none
         | _ => none
-      if o = "gi" then k1 (Op.getItem t)
-      else if o = "ge" then k1 (Op.get t)
-      else if o = "ga" then k1 (Op.getAll t)
-      else if o = "co" then k1 (Op.contains t)
-      else if o = "di" then k1 (Op.delItem t)
-      else if o = "po" then k1 (Op.pop t)
-      else if o = "si" then k2 (Op.setItem t)
-      else if o = "ad" then k2 (Op.add t)
-      else if o = "sd" then k2 (Op.setdefault t)
+      let plain (op : Op) : Option (AOp × List String) := some (AOp.plain op, rest)
+      if o = "gi" then k1 .getItem
+      else if o = "ge" then k1 .get
+      else if o = "ga" then k1 .getAll
+      else if o = "co" then k1 .contains
+      else if o = "di" then k1 .delItem
+      else if o = "po" then k1 .pop
+      else if o = "si" then k2 .setItem
+      else if o = "ad" then k2 .add
+      else if o = "sd" then k2 .setdefault
       else if o = "sa" then
         match rest with
-        | k :: n :: r => match hexOr k, n.toNat? with
-          | some k, some n => (takeBytes n r).map (fun (vs, r') => (Op.setAll t k vs, r'))
+        | k :: n :: r => match arg? k, n.toNat? with
+          | some k, some n => (takeArgs n r).map (fun (vs, r') => (AOp.setAll t k vs, r'))
           | _, _ => none
         | _ => none
       else if o = "in" then
         match rest with
-        | i :: k :: v :: r => match i.toInt?, hexOr k, hexOr v with
-          | some i, some k, some v => some (Op.insert t i k v, r)
+        | i :: k :: v :: r => match i.toInt?, arg? k, arg? v with
+          | some i, some k, some v => some (AOp.insert t i k v, r)
           | _, _, _ => none
         | _ => none
       else if o = "up" then
         match rest with
         | n :: r => match n.toNat? with
-          | some n => (takeFields n r).map (fun (ps, r') => (Op.update t ps, r'))
+          | some n => (takeArgs (2 * n) r).map (fun (ps, r') => (AOp.update t (pairArgs ps), r'))
           | none => none
         | _ => none
       else if o = "eq" then
         match rest with
-        | u :: r => u.toNat?.map (fun u => (Op.eq t u, r))
+        | u :: r => u.toNat?.map (fun u => (AOp.plain (Op.eq t u), r))
         | _ => none
       else if o = "ks" then
         match rest with
-        | m :: r => (flag? m).map (fun m => (Op.keys t m, r))
+        | m :: r => (flag? m).map (fun m => (AOp.plain (Op.keys t m), r))
         | _ => none
       else if o = "vs" then
         match rest with
-        | m :: r => (flag? m).map (fun m => (Op.values t m, r))
+        | m :: r => (flag? m).map (fun m => (AOp.plain (Op.values t m), r))
         | _ => none
-      else if o = "it" then some (Op.iter t, rest)
-      else if o = "ln" then some (Op.len t, rest)
-      else if o = "cp" then some (Op.copy t, rest)
-      else if o = "im" then some (Op.itemsMulti t, rest)
-      else if o = "is" then some (Op.items t, rest)
-      else if o = "pi" then some (Op.popitem t, rest)
-      else if o = "cl" then some (Op.clear t, rest)
-      else if o = "by" then some (Op.toBytes t, rest)
+      else if o = "it" then plain (Op.iter t)
+      else if o = "ln" then plain (Op.len t)
+      else if o = "cp" then plain (Op.copy t)
+      else if o = "im" then plain (Op.itemsMulti t)
+      else if o = "is" then plain (Op.items t)
+      else if o = "pi" then plain (Op.popitem t)
+      else if o = "cl" then plain (Op.clear t)
+      else if o = "by" then plain (Op.toBytes t)
       else none
   | _ => none
 
-partial def parseOps (ts : List String) : Option (List Op) :=
+partial def parseOps (ts : List String) : Option (List AOp) :=
   if ts.isEmpty then some []
   else match parseOp ts with
     | none => none
     | some (op, rest) => (parseOps rest).map (op :: ·)
+
+def hexWord (n : Nat) : String :=
+  if n < 16 then String.singleton (Hex.digit n) else String.ofList (go n [])
+where go (n : Nat) (acc : List Char) : List Char :=
+  if h : n = 0 then acc else go (n / 16) (Hex.digit (n % 16) :: acc)
+  termination_by n
+  decreasing_by omega
+
+def showStr (s : PyStr) : String := if s.isEmpty then "u-" else "u" ++ ".".intercalate (s.map hexWord)
+
+def showArg : Arg → String
+  | .b x => "b" ++ showBytes x
+  | .s x => showStr x
 
 def showList (tag : String) (l : List Bytes) : String :=
   " ".intercalate ([tag, toString l.length] ++ l.map showBytes)
@@ -108,18 +156,20 @@ def showList (tag : String) (l : List Bytes) : String :=
 def showFields (fs : Fields) : String :=
   " ".intercalate (toString fs.length :: fs.flatMap (fun f => [showBytes f.1, showBytes f.2]))
 
-def showRet : Ret → String
+def showRet : ARet → String
   | .none => "none"
   | .keyError => "keyerror"
+  | .unicodeError => "unicodeerror"
   | .badObj => "badobj"
-  | .val b => "val " ++ showBytes b
+  | .str b => "val " ++ showStr b
+  | .arg a => "val " ++ showArg a
   | .opt none => "nothing"
-  | .opt (some b) => "some " ++ showBytes b
-  | .list l => showList "list" l
+  | .opt (some b) => "some " ++ showStr b
+  | .strs l => " ".intercalate (["list", toString l.length] ++ l.map showStr)
   | .bool b => if b then "true" else "false"
   | .nat n => "int " ++ toString n
-  | .pairs l => " ".intercalate (["pairs", toString l.length] ++ l.flatMap (fun f => [showBytes f.1, showBytes f.2]))
-  | .pair k v => "pair " ++ showBytes k ++ " " ++ showBytes v
+  | .pairs l => " ".intercalate (["pairs", toString l.length] ++ l.flatMap (fun f => [showStr f.1, showStr f.2]))
+  | .pair k v => "pair " ++ showStr k ++ " " ++ showStr v
   | .obj n => "obj " ++ toString n
   | .bytes b => "bytes " ++ showBytes b
 
@@ -138,12 +188,39 @@ def stepLine (line : String) : String :=
     | none => "bad-op"
     | some n => match takeFields n rest with
       | none => "bad-op"
-      | some (init, rest) => match parseOps rest with
+      | some (fields0, rest) =>
+        -- optional constructor keyword arguments: `kw <m> (u<name> <value>)*`
+        let kw : Option (Option (List (PyStr × Arg)) × List String) :=
+          match rest with
+          | "kw" :: m :: r => match m.toNat? with
+            | some m => match takeArgs (2 * m) r with
+              | some (as, r') =>
+                let ps := (pairArgs as).filterMap (fun p => match p.1 with | .s nm => some (nm, p.2) | .b _ => none)
+                if ps.length = m then some (some ps, r') else none
+              | none => none
+            | none => none
+          | _ => some (none, rest)
+        match kw with
         | none => "bad-op"
-        | some ops =>
-          let tr := C35.run [init] ops
-          if tr.isEmpty then "empty"
-          else " ; ".intercalate (tr.map (fun r => showRet r.1 ++ " " ++ showStore r.2))
+        | some (kwargs, rest) =>
+          match parseOps rest with
+          | none => "bad-op"
+          | some ops =>
+            match (match kwargs with | none => some fields0 | some ps => Api.construct fields0 ps) with
+            | none => "unicodeerror"
+            | some init =>
+              let tr := Api.run [init] ops
+              let steps := tr.map (fun r => showRet r.1 ++ " " ++ showStore r.2)
+              let steps := if kwargs.isSome then ("init " ++ showStore [init]) :: steps else steps
+              if steps.isEmpty then "empty" else " ; ".intercalate steps
+  | ["nat", h] =>
+    match hexOr h with
+    | some b => showStr (C35.native b)
+    | none => "bad-op"
+  | ["enc", u] =>
+    match arg? u with
+    | some a => (match alwaysBytes a with | some b => "b" ++ showBytes b | none => "unicodeerror")
+    | none => "bad-op"
   | "rt" :: n :: rest =>
     match n.toNat? with
     | none => "bad-op"
